@@ -24,7 +24,7 @@ var run *ev.Run
 func TestMain(m *testing.M) {
 	run = ev.Start("C11", "exploration",
 		"rapid draws a universe (as C10; project names drawn from a tiny set so that generated requirement names collide), a root requirement set and "+
-			"1-4 operations applied as the CLI does (config.Requirements = result): Tidy, UpgradeAll, Get(path[@major]@query) with query in "+
+			"1-4 operations applied as the CLI does (config.Requirements = result): Tidy, UpgradeAll, Get(path[@major]@query), the default major sometimes spelled out (p@v1, p@v0), with query in "+
 			"{exact version above/equal/below current, latest, upgrade, patch, >v, >=v, <v, <=v, prefix, tag ref, branch ref} for present and absent projects. "+
 			"Oracle (relations of the statement; build lists by mvs.BuildList cross-checked with the reference): Tidy keeps the build list; an upgrade puts "+
 			"the project at >= the version resolved by an independent query resolver and lowers or drops no other project; a downgrade leaves the project "+
